@@ -8,6 +8,7 @@ CONSTANTS Keys = {1, 2, 3}
           EK = 0
           TName = "IntIntMap"
           NHeld = 0
+          NEnum = 0
 VIEW View
 ACTION_CONSTRAINT DumpT
 INVARIANTS SetOK RefuseOK KeysBagExact ValuesBagExact EntriesBagExact WireRoundTrip NilIsAValue
